@@ -365,9 +365,12 @@ def mutate(owner, fname, old, new, count=1, accessor='fget'):
     elif isinstance(orig, (staticmethod, classmethod)):
         target, wrap = orig.__func__, type(orig)
     src = textwrap.dedent(inspect.getsource(target))
-    if src.count(old) < 1:
-        raise HarnessError('canary: %r not found in %s.%s' % (old, getattr(owner, '__name__', owner), fname))
-    src2 = src.replace(old, new, count)
+    pairs = list(zip(old, new)) if isinstance(old, (list, tuple)) else [(old, new)]
+    src2 = src
+    for o, n in pairs:
+        if src2.count(o) < 1:
+            raise HarnessError('canary: %r not found in %s.%s' % (o, getattr(owner, '__name__', owner), fname))
+        src2 = src2.replace(o, n, count)
     if isinstance(owner, type):
         # private name mangling (self.__x) is done by the compiler only inside a class body: do it textually
         import re
